@@ -1,6 +1,6 @@
 (* C09 (HTTP part): sx entry.  Input (case impl_obs) with
    case = ((server date ((code phrase description) ...)) eof data (handler ...)),
-   handler = (pred act), pred = (0 b) constant | (1 prefix) | (2 exact path) | (3 ((path b) ...)) table,
+   handler = (pred boom act) (boom: for which paths prepare_context raises), pred = (0 b) constant | (1 prefix) | (2 exact path) | (3 ((path b) ...)) table,
    act as in C03 ((0) raise | (1 status headers body));
    obs  = (client internal) with client = (0) closed | (1 code) well-formed response | (2) bytes without
    status line | (3 raw) malformed | (4) hang, internal = 1 iff a log record with exception info was seen.
@@ -58,7 +58,8 @@ Definition http_holds (c : hcase) (o : hobs) : list string :=
         | _ => ["C09:http_reaction"%string]
         end).
 
-Definition http_valid (c : hcase) : Prop := forall h, In h (hc_handlers c) -> act_raises (h_act h) = false.
+Definition http_valid (c : hcase) : Prop :=
+  forall h path, In h (hc_handlers c) -> h_boom h path || act_raises (h_act h) = false.
 
 (* ---------- sx ---------- *)
 Definition de_tentry (x : sx) : option (bytes * bool) :=
@@ -73,7 +74,8 @@ Definition de_pred (x : sx) : option pred :=
   end.
 Definition de_hspec (x : sx) : option hspec :=
   match x with
-  | L [p; a] => obind (de_pred p) (fun p => obind (dec_act a) (fun a => Some {| h_pred := eval_pred p; h_act := a |}))
+  | L [p; b; a] => obind (de_pred p) (fun p => obind (de_pred b) (fun b => obind (dec_act a) (fun a =>
+                   Some {| h_pred := eval_pred p; h_boom := eval_pred b; h_act := a |})))
   | _ => None
   end.
 Definition de_wobs (x : sx) : option wobs :=
